@@ -21,6 +21,14 @@ static_assert(!std::is_copy_constructible<UH>::value, "W:unique_not_copy_constru
 static_assert(!std::is_copy_assignable<UH>::value, "W:unique_not_copy_assignable");
 static_assert(std::is_move_constructible<UH>::value, "W:unique_move_constructible");
 static_assert(std::is_move_assignable<UH>::value, "W:unique_move_assignable");
+static_assert(!std::is_constructible<UH, UH&>::value, "W:unique_not_constructible_from_lvalue");
+static_assert(!std::is_constructible<UH, const UH&>::value, "W:unique_not_constructible_from_const_lvalue");
+static_assert(!std::is_assignable<UH&, UH&>::value, "W:unique_not_assignable_from_lvalue");
+static_assert(!std::is_constructible<UH, const IntHandle&>::value && !std::is_constructible<UH, IntHandle&>::value &&
+                  !std::is_constructible<UH, IntHandle>::value,
+              "W:unique_not_constructible_from_plain_handle");
+static_assert(!std::is_convertible<int, UH>::value && std::is_constructible<UH, int>::value, "W:unique_from_value_is_explicit");
+static_assert(!std::is_constructible<nop::UniqueFileHandle, nop::UniqueFileHandle&>::value, "W:unique_file_not_constructible_from_lvalue");
 static_assert(!std::is_copy_constructible<nop::UniqueFileHandle>::value, "W:unique_file_not_copyable");
 static_assert(std::is_copy_constructible<IntHandle>::value, "W:plain_handle_copyable");
 
